@@ -1,0 +1,70 @@
+//go:build verif
+
+// Contracts for package diskwriter, checked by /verif (gvc).  This file
+// contains no declarations; it is compiled only with the verif build tag.
+
+package diskwriter
+
+//@ -- ------------------------------------------------------------------ the recorder's boundary (a narrow part of C20)
+//@ -- what the recorder's helpers leave alone: the track's connection and publisher, and the connection's lock (called locked)
+//@ spec keepstrack(t *diskTrack) bool = t.conn == old(t.conn) && t.remote == old(t.remote) && held(t.conn.mu) == old(held(t.conn.mu))
+//@
+//@ func (*diskTrack).writeRTP
+//@   trusted
+//@   why diskwriter.go: pushes the packet to the sample builder and writes the completed samples (pion samplebuilder, ebml-go: outside the verified code);
+//@       does not reassign t.conn or t.remote and returns with the connection's mutex as it found it
+//@   requires nonnil: t != nil
+//@   modifies *
+//@   ensures keeps: keepstrack(t)
+//@
+//@ func some
+//@   safe
+//@   pure
+//@   props C20 C12
+//@   modifies nothing
+//@   ensures valid: (result & (1 << 32)) != 0 && uint32(result) == value
+//@ func valid
+//@   safe
+//@   pure
+//@   props C20 C12
+//@   modifies nothing
+//@   ensures def: result == ((m & (1 << 32)) != 0)
+//@ func value
+//@   safe
+//@   pure
+//@   props C20 C12
+//@   modifies nothing
+//@   ensures def: result == uint32(m)
+//@
+//@ func fetch
+//@   safe
+//@   props C20 C12
+//@   requires nonnil: t != nil && t.remote != nil
+//@   modifies *
+//@   ensures keeps: keepstrack(t)
+//@   -- C20: a packet recovered from the publisher's cache is parsed from exactly the bytes the cache returned
+//@   -- (it was parsed from the whole 1504-byte buffer: repaired), in a buffer of its own (the sample builder retains packets)
+//@   assert at call Unmarshal exact-bytes: len(arg_buf) == int(callresult("GetPacket", 1)) && fresh(arg_buf)
+//@   assert at call GetPacket this-packet: arg_seqno == seqno && !arg_nack && len(arg_result) == 1504 && fresh(arg_result)
+//@   assert at call writeRTP parsed: callresult("Unmarshal", 1) == nil && callresult("GetPacket", 1) != 0
+//@
+//@ func requestKeyframe
+//@   trusted
+//@   why diskwriter.go: rate-limited PLI request; touches kfRequested only
+//@   requires nonnil: t != nil
+//@   modifies *
+//@   ensures keeps: keepstrack(t)
+//@
+//@ func (*diskTrack).Write
+//@   safe
+//@   props C20 C12
+//@   requires nonnil: t != nil && t.conn != nil && t.remote != nil
+//@   requires unlocked: !held(t.conn.mu)
+//@   modifies *
+//@   invariant loop 1 range: 1 <= i && count$1 < 256 && t.remote != nil && t.conn == old(t.conn) && held(t.conn.mu)
+//@   -- C20: the recorder works on a private copy of the packet, of exactly its length (the caller's buffer is reused)
+//@   assert at call Unmarshal private-copy: len(arg_buf) == len(buf) && fresh(arg_buf)
+//@   -- C20: gap recovery asks the cache for exactly the missing numbers lastSeqno+1 .. seqno-1, each once, in order, and only for gaps below 256
+//@   assert at call fetch missing-number: arg_t == t && arg_seqno == lastSeqno + i && 1 <= i && i < count$1
+//@   -- C20: the packet itself is written after the recovered ones, and only if it parsed
+//@   assert at call writeRTP#1 parsed: callresult("Unmarshal", 1) == nil
